@@ -1940,10 +1940,11 @@ def _determine_fits(x, num_x, total_points, delta):
         skips[total_skips] = (skip_start - 1, num_x - 1)
         total_skips += 1
 
-    # always fit last item
-    fits[total_fits] = num_x - 1
-    windows[total_fits] = (num_x - total_points, num_x)
-    total_fits += 1
+    # always fit last item; for a single point, it was already added as the first item
+    if num_x > 1:
+        fits[total_fits] = num_x - 1
+        windows[total_fits] = (num_x - total_points, num_x)
+        total_fits += 1
 
     return windows[:total_fits], fits[:total_fits], skips[:total_skips]
 
